@@ -52,6 +52,11 @@ def _short(x, n=160) -> str:
     return s if len(s) <= n else s[:n] + "..."
 
 
+def _kind(desc) -> str:
+    lab = sg.label(desc)
+    return lab if desc[0] in ("coll", "bytesterm", "cstr", "typedterm", "typedgreedy") else lab.split("(")[0]
+
+
 def eval_tree(desc, part: Optional[Part] = None) -> List[dict]:
     """All violations of one tree (first witness per (clause, site)); counts into ``part`` when given."""
     desc = sg.T(desc)
@@ -168,6 +173,16 @@ def eval_tree(desc, part: Optional[Part] = None) -> List[dict]:
         part.count("trees_" + sg.classify(desc).replace("-", "_"))
         if len(desc) > 1 and sg._children(desc):
             part.mark_nontrivial(sg.describe(desc))
+        # where do window-consuming (rest-of-window) values occur?  root of the byte window / position under each parent
+        n_eof = sum(1 for v in vals if v.eof)
+        if n_eof:
+            part.count("wcpos:%s at the end of the buffer (root)" % _kind(desc))
+            part.count("window_consuming_values", n_eof)
+        kids = sg._children(desc)
+        for i, (ch, _) in enumerate(kids):
+            if sg._closed(ch) and any(v.eof for v in sg._dom(ch, [])):
+                part.count("wcpos:%s inside %s (%s)" % (_kind(ch), _kind(desc), "only child" if len(kids) == 1 else
+                                                        ("last member" if i == len(kids) - 1 else "non-last member, rest encodes to nothing")))
     return list(out.values())
 
 
@@ -243,6 +258,11 @@ def run(run: Run):
     run.coverage_extra["wall"] = round(time.time() - run.t0, 1)
     run.coverage_extra["depth"] = depth
     run.coverage_extra["trees_enumerated"] = len(_TREES)
+    wc = {k[6:]: v for k, v in run.counters.items() if k.startswith("wcpos:")}
+    for k in list(run.counters):
+        if k.startswith("wcpos:"):
+            del run.counters[k]
+    run.coverage_extra["window_consuming_positions"] = dict(sorted(wc.items()))  # trees per (rest-of-window spec, where it sits)
     run.coverage_extra["constructor_options_covered"] = sg.option_coverage(_TREES)
     run.coverage_extra["constructor_options_not_varied"] = [
         "dataclass_field(default/default_factory/init/repr/hash/compare) and bitfield_field(default...) -- no effect on the wire",
